@@ -33,18 +33,20 @@ Section AnyP.
 Variable P : Type.
 Variable pmul : P -> P -> P.
 Variables p0 p1 : P.
-Variable pltb : P -> P -> bool.
+Variables pltb pleb peqb : P -> P -> bool.
 
-Notation py_parse := (py_pcfg_scorer_parse P pmul p0 p1 pltb c_upper c_detectors).
-Notation result := (ScorerRt.parse_result P pmul p0 p1 pltb c_upper).
+Notation py_parse := (py_pcfg_scorer_parse P pmul p0 p1 pltb pleb peqb c_upper c_detectors).
+Notation result := (ScorerRt.parse_result P pmul p0 p1 c_upper).
 
 (* the translated parse returns, for EVERY scorer object and string, the four
    values the model determines *)
 Theorem source_parse_result : forall self s,
-  exists r, parse_s (multiword_detector self) s = POk r /\ py_parse self s = Ok (result self s r).
+  exists r b, parse_s (multiword_detector self) s = POk r /\ py_parse self s = Ok (result b self s r).
 Proof.
   intros self s. destruct (parse_s (multiword_detector self) s) as [|r] eqn:E; [exfalso; exact (parse_s_total _ _ E)|].
-  exists r. split; [reflexivity|]. unfold parse_s in E. exact (gen_ok _ _ _ _ _ _ _ _ _ _ _ _ _ _ _ _ _ _ _ _ _ _ _ E).
+  unfold parse_s in E.
+  destruct (gen_ok P pmul p0 p1 pltb pleb peqb c_upper _ _ _ _ _ _ _ _ _ _ _ _ _ _ self s r E) as (b & Eb).
+  exists r, b. split; [reflexivity|exact Eb].
 Qed.
 
 (* ... hence (category as e / w / other, probability) is Scorer.score, the
@@ -58,16 +60,16 @@ Proof.
 Qed.
 
 (* the other two values and the category letters: the password itself, the
-   OMEN score, and 'p' only when the cut-off test holds; the cut-off never
-   reaches the probability *)
+   OMEN score, one of e w o p; the classification cut-off (whatever its test
+   is) chooses between o and p and never reaches the probability *)
 Theorem source_parse_shape : forall self s pw c p o, py_parse self s = Ok (pw, c, p, o) ->
   pw = s /\ o = omen_parse (omen self) s /\
   score P pmul p0 p1 scorer_rebuild_check c_upper (parse_s (multiword_detector self)) (rs_of self) s = Some (cat_of_str c, p) /\
-  (c = s_e \/ c = s_w \/ c = s_o \/ (c = s_p /\ cutoff P pltb self p o = true)).
+  (c = s_e \/ c = s_w \/ c = s_o \/ c = s_p).
 Proof.
-  intros self s pw c p o H. destruct (source_parse_result self s) as (r & Er & Eg). rewrite Eg in H.
-  pose proof (parse_result_shape P pmul p0 p1 pltb c_upper self s r) as Hs.
-  pose proof (parse_result_view P pmul p0 p1 pltb c_upper _ self s r Er) as Hv.
+  intros self s pw c p o H. destruct (source_parse_result self s) as (r & b & Er & Eg). rewrite Eg in H.
+  pose proof (parse_result_shape P pmul p0 p1 c_upper b self s r) as Hs.
+  pose proof (parse_result_view P pmul p0 p1 c_upper _ b self s r Er) as Hv.
   injection H as H. rewrite H in Hs, Hv. rewrite side_rebuild_check. cbn [view] in Hv. tauto.
 Qed.
 
@@ -76,7 +78,7 @@ Theorem source_email_website_zero : forall self s r, parse_s (multiword_detector
   (p_emails r <> [] -> py_parse self s = Ok (s, s_e, p0, omen_parse (omen self) s)) /\
   (p_emails r = [] -> p_urls r <> [] -> py_parse self s = Ok (s, s_w, p0, omen_parse (omen self) s)).
 Proof.
-  intros self s r E. destruct (source_parse_result self s) as (r' & Er & Eg). rewrite E in Er. injection Er as <-.
+  intros self s r E. destruct (source_parse_result self s) as (r' & b & Er & Eg). rewrite E in Er. injection Er as <-.
   rewrite Eg. unfold ScorerRt.parse_result. split.
   - intros H. apply nonempty_true in H. now rewrite H.
   - intros H1 H2. rewrite H1. apply nonempty_true in H2. cbn [nonempty]. now rewrite H2.
@@ -95,11 +97,12 @@ End AnyP.
 
 (* ---- over exact rationals: the promise *)
 Definition Qltb (a b : Q) : bool := match Qcompare a b with Lt => true | _ => false end.
-Notation py_parse_Q := (py_pcfg_scorer_parse Q Qmult 0%Q 1%Q Qltb c_upper c_detectors).
+Definition Qleb (a b : Q) : bool := match Qcompare a b with Gt => false | _ => true end.
+Notation py_parse_Q := (py_pcfg_scorer_parse Q Qmult 0%Q 1%Q Qltb Qleb Qeq_bool c_upper c_detectors).
 
 Lemma source_score_Q : forall (self : scorer_obj Q) s pw c p o, py_parse_Q self s = Ok (pw, c, p, o) ->
   score_c (parse_s (multiword_detector self)) (rs_of self) s = Some (cat_of_str c, p).
-Proof. intros self s pw c p o H. exact (proj1 (proj2 (proj2 (source_parse_shape Q Qmult 0%Q 1%Q Qltb self s pw c p o H)))). Qed.
+Proof. intros self s pw c p o H. exact (proj1 (proj2 (proj2 (source_parse_shape Q Qmult 0%Q 1%Q Qltb Qleb Qeq_bool self s pw c p o H)))). Qed.
 
 Theorem source_promise_derivation : forall (self : scorer_obj Q) s pw c p o, s <> [] ->
   py_parse_Q self s = Ok (pw, c, p, o) -> ~ (p == 0)%Q -> c_generates (rs_of self) s p.
@@ -131,7 +134,7 @@ Theorem source_missing_is_zero : forall (self : scorer_obj Q) s r,
    (exists w, In w (p_other r) /\ lookupQ (count_other self) w = None)) ->
   exists pw c p o, py_parse_Q self s = Ok (pw, c, p, o) /\ (p == 0)%Q.
 Proof.
-  intros self s r E Hm. destruct (source_parse_result Q Qmult 0%Q 1%Q Qltb self s) as (r' & Er & Eg).
+  intros self s r E Hm. destruct (source_parse_result Q Qmult 0%Q 1%Q Qltb Qleb Qeq_bool self s) as (r' & b & Er & Eg).
   rewrite E in Er. injection Er as <-. rewrite Eg. unfold ScorerRt.parse_result.
   pose proof (missing_is_zero (rs_of self) r Hm) as Hz.
   destruct (nonempty (p_emails r)); [do 4 eexists; split; [reflexivity|reflexivity]|].
